@@ -10,7 +10,7 @@ Record obs := mkObs {
   o_rinfo : list (Z * Z);                    (* role id -> sid *)
   o_next : Z;                                (* GetNextRoleId *)
   o_allowed : list (Z * list Z);             (* address -> permissions of the universe with CheckIfAllowedPermission = true *)
-  o_voters : list (Z * option (list Z));     (* permission -> GetNetworkActorsByAbsoluteWhitelistPermission (None = panic) *)
+  o_voters : list (Z * option (list Z));     (* permission -> GetNetworkActorsByAbsoluteWhitelistPermission, the LIST as returned (order and multiplicity; None = panic) *)
   o_ipa : list (Z * Z); o_ira : list (Z * Z); o_ipr : list (Z * Z) }.   (* the three index prefixes *)
 
 Definition step_obs : Type := op * bool * option obs.      (* None: observation identical to the previous one *)
@@ -58,7 +58,7 @@ Definition state_matches (s : state) (o : obs) : bool :=
   && pset_eqb (idx_pa s) (o_ipa o) && pset_eqb (idx_ra s) (o_ira o) && pset_eqb (idx_pr s) (o_ipr o)
   && forallb (fun e => forallb (fun p => Bool.eqb (check_allowed s (fst e) p) (mem p (snd e))) uperms) (o_allowed o)
   && forallb (fun e => match voters s (fst e), snd e with
-                       | Ok l, Some l' => set_eqb l l'
+                       | Ok l, Some l' => Nat.eqb (List.length l) (List.length l') && set_eqb l l'   (* the model's list has no repetition: same multiset *)
                        | Panic _, None => true
                        | _, _ => false end) (o_voters o).
 
@@ -137,7 +137,10 @@ Definition index_disc (o : obs) : list disc :=
   ++ tag "index-role-addr-missing"%string (pdiff (spec_ira o) (o_ira o)) ++ tag "index-role-addr-stale"%string (pdiff (o_ira o) (spec_ira o))
   ++ tag "index-perm-role-missing"%string (pdiff (spec_ipr o) (o_ipr o)) ++ tag "index-perm-role-stale"%string (pdiff (o_ipr o) (spec_ipr o)).
 
-(* the eligible voters of a permission are exactly the actors whose own or role whitelist carries it *)
+(* the eligible voters of a permission are exactly the actors whose own or role whitelist carries it,
+   each listed exactly once (the list is what the tally counts) *)
+Fixpoint dup_elems (l : list Z) : list Z :=
+  match l with [] => [] | x :: r => if mem x r then x :: dup_elems r else dup_elems r end.
 Definition spec_voters (o : obs) (p : Z) : list Z := filter (fun a => spec_whitelisted o a p) (map fst (canon [] (o_actors o))).
 Definition voters_disc (o : obs) : list disc :=
   flat_map (fun e => let p := fst e in
@@ -145,7 +148,17 @@ Definition voters_disc (o : obs) : list disc :=
     | None => [(p, 0, "voters-panic"%string)]
     | Some l => map (fun a => (p, a, "voters-missing"%string)) (filter (fun a => negb (mem a l)) (spec_voters o p))
                 ++ map (fun a => (p, a, "voters-extra"%string)) (filter (fun a => negb (mem a (spec_voters o p))) l)
+                ++ map (fun a => (p, a, "voters-duplicate"%string)) (dup_elems l)
     end) (o_voters o).
+
+(* the dumped records list every role / permission once *)
+Definition record_disc (o : obs) : list disc :=
+  flat_map (fun e => map (fun r => (fst e, r, "record-duplicate-role"%string)) (dup_elems (a_roles (snd e)))
+                     ++ map (fun p => (fst e, p, "record-duplicate-actor-whitelist"%string)) (dup_elems (wl (a_perms (snd e)))))
+           (canon [] (o_actors o))
+  ++ flat_map (fun e => map (fun p => (fst e, p, "record-duplicate-role-whitelist"%string)) (dup_elems (wl (snd e)))
+                        ++ map (fun p => (fst e, p, "record-duplicate-role-blacklist"%string)) (dup_elems (bl (snd e))))
+              (canon [] (o_roles o)).
 
 (* every gated message succeeds only for an actor holding the required permission at that moment *)
 Definition acc_gate_spec (o : obs) (x p : Z) : bool :=
@@ -189,12 +202,17 @@ Definition state_clauses (who : string) (before : option obs) (now : obs) : list
   let prev := fun (f : obs -> list disc) => match before with Some b => f b | None => [] end in
   let a := dnew (allow_disc now) (prev allow_disc) in
   let i := dnew (index_disc now) (prev index_disc) in
-  let v := dnew (voters_disc now) (prev voters_disc) in
+  let v0 := dnew (voters_disc now) (prev voters_disc) in
+  let is_dup := fun (d : disc) => String.eqb (snd d) "voters-duplicate" in
+  let v := filter (fun d => negb (is_dup d)) v0 in
+  (* an actor listed twice is never explained by an index defect: always reported *)
+  let vd := map (fun k => (k ++ ":enumeration")%string) (kinds (filter is_dup v0)) in
+  let rd := dnew (record_disc now) (prev record_disc) in
   let vk := match index_disc now, i with
             | [], _ => map (fun k => (k ++ ":enumeration")%string) (kinds v)     (* indexes right, enumeration wrong *)
             | _, [] => []                                                        (* consequence of an older index defect *)
             | _, _ => map (fun k => (k ++ ":" ++ who)%string) (kinds v) end in
-  map (fun k => (k ++ ":" ++ who)%string) (kinds a ++ kinds i) ++ vk.
+  map (fun k => (k ++ ":" ++ who)%string) (kinds a ++ kinds i ++ kinds rd) ++ vk ++ vd.
 
 Definition step_clauses (before : obs) (o : op) (ok : bool) (now : obs) : list string :=
   state_clauses (op_name o) (Some before) now
